@@ -11,7 +11,7 @@ def main():
     rdir = os.path.join(VERIF, 'registry')
     if os.path.isdir(rdir):
         for f in sorted(os.listdir(rdir)):
-            if f.endswith('.json'):
+            if f.endswith('.json') and f[:-5] in reg.get('ready', []):
                 reg['checks'][f[:-5]] = json.load(open(os.path.join(rdir, f)))
     props = [json.loads(l) for l in open(os.path.join(VERIF, 'properties.jsonl'))]
     ids = [p['id'] for p in props]
